@@ -453,7 +453,11 @@ def cmdE2e : P String := do
         | some v => pure (some v)
         | none => throw "unparsable generated parameters"
     if !sendOk then return s!"DIFF C03 send-failed call={idx} transport={transport}"
-    let obj := callObj c.method pv f.more f.oneway f.upgrade
+    -- bit 16 of the flags field: the call went through `Connection.Call` (model: `callWrapper`), which writes absent
+    -- parameters as `"parameters":null`
+    let viaCall := c.flags / 16 % 2 == 1
+    let obj := if viaCall && pv.isNone then callObj c.method (some .null) false false false
+               else callObj c.method pv f.more f.oneway f.upgrade
     expC2s := expC2s ++ [obj.sanitize]
     let ci : CallIn := { method := c.method, params := pv.bind (fun v => match v with | .null => none | v => some v),
                          more := f.more, oneway := f.oneway, upgrade := f.upgrade }
